@@ -25,7 +25,16 @@ def _universal_sort_key(*args):
 
 
 def sorted_scope_items(scope_dict):
-    return sorted(scope_dict.items(), key=lambda pair: _universal_sort_key(*pair[0]))
+    try:
+        return sorted(
+            scope_dict.items(), key=lambda pair: _universal_sort_key(*pair[0])
+        )
+    except TypeError:
+        # Scope values only have to be hashable and equatable; order unorderable ones by repr.
+        return sorted(
+            scope_dict.items(),
+            key=lambda pair: tuple((str(type(x)), repr(x)) for x in pair[0]),
+        )
 
 
 def get_scope_string(scope, *, add_zero_width_spaces=False):
